@@ -1,8 +1,8 @@
-(* C19 -- the bounded binary64 theorem assembled from FloatGrid1..16 and lifted over p, mult;
+(* C19 -- the bounded binary64 theorem assembled from FloatGrid1..4 and lifted over p, mult;
    the refutation of the unrepaired (np.arange) formula. *)
 From Coq Require Import PrimFloat QArith List Arith Bool Lia.
 From Verif.lib Require Import NpCore NpF.
-From Verif.C19 Require Import FloatGridDefs FloatGrid1 FloatGrid2 FloatGrid3 FloatGrid4 FloatGrid5 FloatGrid6 FloatGrid7 FloatGrid8 FloatGrid9 FloatGrid10 FloatGrid11 FloatGrid12 FloatGrid13 FloatGrid14 FloatGrid15 FloatGrid16.
+From Verif.C19 Require Import FloatGridDefs FloatGrid1 FloatGrid2 FloatGrid3 FloatGrid4.
 Import ListNotations.
 Open Scope float_scope.
 
@@ -29,18 +29,6 @@ Proof.
   - exact (chunk_lookup 1 qa qb n grid2_ok Hg Hn).
   - exact (chunk_lookup 2 qa qb n grid3_ok Hg Hn).
   - exact (chunk_lookup 3 qa qb n grid4_ok Hg Hn).
-  - exact (chunk_lookup 4 qa qb n grid5_ok Hg Hn).
-  - exact (chunk_lookup 5 qa qb n grid6_ok Hg Hn).
-  - exact (chunk_lookup 6 qa qb n grid7_ok Hg Hn).
-  - exact (chunk_lookup 7 qa qb n grid8_ok Hg Hn).
-  - exact (chunk_lookup 8 qa qb n grid9_ok Hg Hn).
-  - exact (chunk_lookup 9 qa qb n grid10_ok Hg Hn).
-  - exact (chunk_lookup 10 qa qb n grid11_ok Hg Hn).
-  - exact (chunk_lookup 11 qa qb n grid12_ok Hg Hn).
-  - exact (chunk_lookup 12 qa qb n grid13_ok Hg Hn).
-  - exact (chunk_lookup 13 qa qb n grid14_ok Hg Hn).
-  - exact (chunk_lookup 14 qa qb n grid15_ok Hg Hn).
-  - exact (chunk_lookup 15 qa qb n grid16_ok Hg Hn).
 Qed.
 
 Lemma make_knots_float_bounded_l qa qb n p mult :
